@@ -32,7 +32,7 @@ ASSUMPTIONS = ["the two runs keep the same relative placement of output director
                "comment holding its own path relative to the definition root)",
                "byte differences between regenerated and shipped core_defs.py are reported as information (formatter versions may "
                "differ); the semantic signature must be equal"]
-REQUIRE = {"closures_compiled_twice": 25, "output_files_compared": 150, "combined_roundtrips": 25, "core_defs_classes_compared": 50}
+REQUIRE = {"compiled_into_used_directory": 30, "closures_compiled_twice": 25, "output_files_compared": 150, "combined_roundtrips": 25, "core_defs_classes_compared": 50}
 CASE_TIMEOUT = 300
 OUTS = ["out.py", "out.h", "out.js", "out.m", "out_combined.yaml", "out.txt"]
 
@@ -227,7 +227,9 @@ def run_same_process(case, res, work):
             f"try:\n    compile([{str(rz)!r}], {str(work / 'o0')!r}, 'out', {kw})\nexcept BaseException:\n    pass\n"
             f"compile([{str(ra)!r}], {str(work / 'o1')!r}, 'out', {kw})\n"
             f"os.chdir({str(work)!r})\ncompile([{str(rb)!r}], {str(work / 'o2')!r}, 'out', {kw})\n"
-            f"os.chdir('/')\ncompile([{str(ra)!r}], {str(work / 'o3')!r}, 'out', {kw})\n")
+            f"os.chdir('/')\ncompile([{str(ra)!r}], {str(work / 'o3')!r}, 'out', {kw})\n"
+            # and once more into the directory that still holds the outputs of the other closure
+            f"compile([{str(ra)!r}], {str(work / 'o2')!r}, 'out', {kw})\n")
     r = L.run(["/venv/bin/python", "-c", code])
     if r.returncode != 0:
         V.append({"mech": "compile_failed:same_process", "detail": (r.stdout + r.stderr)[-400:]})
@@ -236,8 +238,19 @@ def run_same_process(case, res, work):
     if rc != 0:
         V.append({"mech": "compile_failed:cli", "detail": txt[-300:]})
         return res
+    # a fresh process writing into the directory that holds the outputs of the namesake closure (all newer than the sources)
+    rc, txt = L.compile_closure(ra, work / "o0", name="out", langs=("py", "c", "js", "mat", "combined"), cli=True, hashseed="5")
+    if rc != 0:
+        V.append({"mech": "compile_failed:cli", "detail": txt[-300:]})
+        return res
     C["same_process_runs"] = 1
     for f in ("out.py", "out.h", "out.js", "out.m", "out_combined.yaml"):
+        for d, what in (("o2", "another closure"), ("o0", "a namesake closure")):
+            C["compiled_into_used_directory"] = C.get("compiled_into_used_directory", 0) + 1
+            if (work / d / f).read_bytes() != (work / "o1" / f).read_bytes():
+                V.append({"mech": f"output_depends_on_what_the_directory_held:{f.split('.')[-1]}",
+                          "detail": f"{f}: compiled into a directory that held the outputs of {what} differs from the same closure compiled into an empty directory"})
+                break
         a1, a3, ac = (work / "o1" / f).read_bytes(), (work / "o3" / f).read_bytes(), (work / "cli" / f).read_bytes()
         C["output_files_compared"] = C.get("output_files_compared", 0) + 2
         if a1 != a3:
